@@ -2,7 +2,7 @@
    `run_cmd name args` returns the canonical observation line for one case. *)
 From TV Require Import Base.Prelude Base.Utf8 Base.Winnow Gen.Consts Extract.Show.
 From TV Require Import Model.Datetime Model.DatetimeStd Model.Numbers Model.Tree Model.Parse Model.Document Model.Write Model.Encode.
-From TV Require Spec.Norm.
+From TV Require Spec.Norm Proofs.PrintBackDTop.
 From TV Require Extract.Cmd_front.
 Require Import String.
 
@@ -195,4 +195,12 @@ Definition run_cmd (name : bytes) (args : list bytes) : bytes :=
   else if bytes_eqb name (str "spans") then match args with [s] => cmd_spans s | _ => str "bad-args" end
   else if bytes_eqb name (str "docf") then match args with [s] => Cmd_front.cmd_docf_front s | _ => str "bad-args" end
   else if bytes_eqb name (str "norm") then match args with [s] => show_hex (Norm.normalize s) | _ => str "bad-args" end
+  else if bytes_eqb name (str "laid") then
+    match args with
+    | [s] => match parse_document s with
+             | POk d => if PrintBackDTop.laid_out' s (doc_root d) then str "laid=yes" else str "laid=no"
+             | _ => str "laid=err"
+             end
+    | _ => str "bad-args"
+    end
   else str "unknown-command".
